@@ -736,6 +736,22 @@ Theorem C18_inferred_names_refuted :
 Proof. exact inferred_names_refuted. Qed.
 Print Assumptions C18_inferred_names_refuted.
 
+(** KNOWN FINDING C18-flag-subcommands (an observation since round 1; by the letter of the property a violation; not repaired): the engine
+    does not know flag-subcommands.  `p(--pf) -> sync(long_flag sync, short_flag S; --so)`: the parser accepts `p --sync` and `p -S`
+    (dispatch to `sync`); the engine skips the unknown flag, stays at `p`, offers `--pf`; `p --sync --pf` and `p -S --pf` are
+    UnknownArgument (same on the real crate) *)
+Theorem C18_flag_subcommands_refuted :
+  FlagSub.chain_of (parse_top FlagSub.c0 [[112]; FlagSub.ddw FlagSub.w_sync]) = Some [FlagSub.w_sync] /\
+  FlagSub.chain_of (parse_top FlagSub.c0 [[112]; [45; 83]]) = Some [FlagSub.w_sync] /\
+  FlagSub.level_at [[112]; FlagSub.ddw FlagSub.w_sync; [45; 45]] 2 = Some [112] /\
+  FlagSub.level_at [[112]; [45; 83]; [45; 45]] 2 = Some [112] /\
+  FlagSub.has_cand (FlagSub.ddw FlagSub.w_pf) (IdArg FlagSub.w_pf) (complete_model [] FlagSub.c0 [[112]; FlagSub.ddw FlagSub.w_sync; [45; 45]] 2) = true /\
+  FlagSub.has_cand (FlagSub.ddw FlagSub.w_pf) (IdArg FlagSub.w_pf) (complete_model [] FlagSub.c0 [[112]; [45; 83]; [45; 45]] 2) = true /\
+  FlagSub.kind_of (parse_top FlagSub.c0 [[112]; FlagSub.ddw FlagSub.w_sync; FlagSub.ddw FlagSub.w_pf]) = Some EUnknownArgument /\
+  FlagSub.kind_of (parse_top FlagSub.c0 [[112]; [45; 83]; FlagSub.ddw FlagSub.w_pf]) = Some EUnknownArgument.
+Proof. exact flag_subcommands_refuted. Qed.
+Print Assumptions C18_flag_subcommands_refuted.
+
 (** * Round 5: lines with the ESCAPE `--` (Complete/EngineEscape.v) - beyond the letter of the property, whose acceptance clause
       speaks of positions "before any `--`"
 
